@@ -1011,8 +1011,26 @@ class LuaASTEchoWriter(BaseLuaWriter):
     def _walk_VarName(self, node):
         yield self._get_name(node, node.name)
 
+    def _walk_exp_prefix(self, node):
+        """Walks the prefix of an index, attribute or call node.
+
+        The parser does not record the parentheses of a prefix such as
+        "(f or g)(x)". A prefix that is an expression node can only have been
+        written in parentheses, so they are written back here.
+        """
+        prefix = node.exp_prefix
+        in_parens = (isinstance(prefix, (parser.ExpValue, parser.ExpBinOp,
+                                         parser.ExpUnOp, parser.VarargDots)) and
+                     not self._args.get('ignore_tokens'))
+        if in_parens:
+            yield self._get_text(node, b'(')
+        for t in self._walk(prefix):
+            yield t
+        if in_parens:
+            yield self._get_text(node, b')')
+
     def _walk_VarIndex(self, node):
-        for t in self._walk(node.exp_prefix):
+        for t in self._walk_exp_prefix(node):
             yield t
         yield self._get_text(node, b'[')
         self._indent += 1
@@ -1022,7 +1040,7 @@ class LuaASTEchoWriter(BaseLuaWriter):
         yield self._get_text(node, b']')
 
     def _walk_VarAttribute(self, node):
-        for t in self._walk(node.exp_prefix):
+        for t in self._walk_exp_prefix(node):
             yield t
         yield self._get_text(node, b'.')
         yield self._get_name(node, node.attr_name)
@@ -1056,7 +1074,12 @@ class LuaASTEchoWriter(BaseLuaWriter):
                 in_parens = True
                 self._indent += 1
         else:
-            if self._tokens[self._pos].matches(lexer.TokSymbol(b'(')):
+            # A value that is itself an expression node was written in
+            # parentheses. (A paren in front of a call or index chain belongs
+            # to the chain's prefix, see _walk_exp_prefix.)
+            if (isinstance(node.value, (parser.ExpValue, parser.ExpBinOp,
+                                        parser.ExpUnOp, parser.VarargDots)) and
+                    self._tokens[self._pos].matches(lexer.TokSymbol(b'('))):
                 yield b'('
                 in_parens = True
                 self._pos += 1
@@ -1082,6 +1105,8 @@ class LuaASTEchoWriter(BaseLuaWriter):
 
         if in_parens:
             self._indent -= 1
+            # (The closing paren may lie outside the node's token range.)
+            yield self._get_code_for_spaces(None)
             yield self._get_text(node, b')')
 
     def _walk_VarargDots(self, node):
@@ -1100,7 +1125,7 @@ class LuaASTEchoWriter(BaseLuaWriter):
             yield t
 
     def _walk_FunctionCall(self, node):
-        for t in self._walk(node.exp_prefix):
+        for t in self._walk_exp_prefix(node):
             yield t
         if node.args is None:
             yield self._get_text(node, b'(')
@@ -1115,7 +1140,7 @@ class LuaASTEchoWriter(BaseLuaWriter):
                 yield t
 
     def _walk_FunctionCallMethod(self, node):
-        for t in self._walk(node.exp_prefix):
+        for t in self._walk_exp_prefix(node):
             yield t
         yield self._get_text(node, b':')
         yield self._get_name(node, node.methodname)
